@@ -76,6 +76,68 @@ theorem C01_full_is_false : ¬ C01_full Nat Nat := by
   rw [h2.1, h2.2] at h1
   exact absurd h1 (by decide)
 
+/-! ### what was read before never changes the data a mutator leaves behind -/
+
+/-- the data after a history, computed without the cache: reads are skipped -/
+def dataRun (d : D) : List (Op D V) → D
+  | [] => d
+  | .read _ :: t => dataRun d t
+  | .edit g :: t => dataRun (g d) t
+  | .mutate m :: t => dataRun (m.apply d) t
+
+theorem verify_data (s : St D V) : (verify s).data = s.data := by
+  unfold verify; split <;> rfl
+
+theorem run_data (f : String → D → V) (s : St D V) (ops : List (Op D V)) :
+    (run f s ops).data = dataRun s.data ops := by
+  induction ops generalizing s with
+  | nil => rfl
+  | cons op t ih =>
+    have hr : run f s (op :: t) = run f (step f s op).2 t := rfl
+    rw [hr, ih]
+    cases op with
+    | read k =>
+      have : (step f s (.read k)).2.data = s.data := by
+        show (Cache.read f s k).2.data = s.data
+        unfold Cache.read
+        cases h : (verify s).cache.lookup k <;> simp [h, verify_data]
+      rw [this]; rfl
+    | edit g => rfl
+    | mutate m =>
+      have : (step f s (.mutate m)).2.data = m.apply s.data := by
+        show (mutate m s).data = m.apply s.data
+        unfold mutate
+        cases m.verifiesFirst <;> simp [verify_data]
+      rw [this]; rfl
+
+/-- **reads never change the data**: for mutators whose change is a function of the data (the model of every library
+    mutator but the one below), the vertices and faces after any history are those of the same history with every
+    read removed - whichever values were read, in whatever order, in between -/
+theorem C01_reads_never_change_data (f : String → D → V) (d : D) (ops : List (Op D V)) :
+    (run f (St.init d) ops).data
+      = (run f (St.init d) (ops.filter (fun o => match o with | .read _ => false | _ => true))).data := by
+  rw [run_data, run_data]
+  generalize (St.init d : St D V).data = d0
+  induction ops generalizing d0 with
+  | nil => rfl
+  | cons op t ih =>
+    cases op with
+    | read k => simpa [dataRun, List.filter] using ih d0
+    | edit g => simpa [dataRun, List.filter] using ih (g d0)
+    | mutate m => simpa [dataRun, List.filter] using ih (m.apply d0)
+
+/-- **a mutator that consults the cache is outside that model** (the recorded finding: `merge_vertices` keeps vertices
+    with different cached vertex normals apart): if the change depends on whether a key is stored, the same history
+    with and without an earlier read ends with different data -/
+theorem C01_cache_consulting_mutator_witness :
+    let f : String → Nat → Nat := fun _ d => d
+    let merge : St Nat Nat → St Nat Nat := fun s =>
+      let s := verify s
+      -- "merge": 36 soup vertices go to 8, or to 24 when vertex normals are in the cache
+      { s with data := if (s.cache.lookup "vertex_normals").isSome then 24 else 8 }
+    (merge (read f (St.init 36) "vertex_normals").2).data = 24 ∧ (merge (St.init 36)).data = 8 := by
+  decide
+
 /-! non-vacuity: a sound mutator with a genuine transport (value doubles when data doubles) -/
 example : let f : String → Nat → Nat := fun _ d => 3 * d
     let m : Mutator Nat Nat := ⟨true, fun d => 2 * d, ["k"], fun _ _ v => 2 * v, true⟩
